@@ -93,6 +93,7 @@ Perturbs == { <<"lo", 1>>, <<"lo", -1>>, <<"hi", 1>>, <<"hi", -1>>, <<"add", 1>>
 
 (* ---- faults *)
 InexactFaults == {"qbelow_lower", "qbelow_upper", "qabove_lower", "qabove_upper", "qbelow_both", "qmixed_both"}
+ComplexRealFaults == {"creal_lower", "creal_upper"}
 AuthorFaults == {"none", "half_lower", "cplx_upper", "var_i", "var_x", "var_c", "blank_lower", "blank_summand", "unknown_var", "pole"}
 StudentFaults == {"none", "blank_lower", "blank_upper", "blank_summand", "blank_var", "var_pi", "var_i", "var_sin", "var_x",
                   "half_lower", "half_upper", "cplx_lower", "cplx_upper", "xdep_upper", "uses_c", "plusc_lower", "pole", "unknown_var"}
@@ -117,6 +118,8 @@ ApplyFault(s, f, k, xs) ==
     [] f = "qabove_upper" -> [s EXCEPT !.upper = [s.upper EXCEPT !.k = "qabove"]]
     [] f = "qbelow_both" -> [s EXCEPT !.lower = [s.lower EXCEPT !.k = "qbelow"], !.upper = [s.upper EXCEPT !.k = "qbelow"]]
     [] f = "qmixed_both" -> [s EXCEPT !.lower = [s.lower EXCEPT !.k = "qabove"], !.upper = [s.upper EXCEPT !.k = "qbelow"]]
+    [] f = "creal_lower" -> [s EXCEPT !.lower = [s.lower EXCEPT !.k = "creal"]]
+    [] f = "creal_upper" -> [s EXCEPT !.upper = [s.upper EXCEPT !.k = "creal"]]
     [] f = "cplx_lower" -> [s EXCEPT !.lower = [s.lower EXCEPT !.k = "cplx"]]
     [] f = "cplx_upper" -> [s EXCEPT !.upper = [s.upper EXCEPT !.k = "cplx"]]
     \* upper limit written as (u - x1) + x: the same integer at the first sample, something else at the others
@@ -182,8 +185,8 @@ Space ==
          [sid |-> (IF L > 3 THEN {"quad", "altn", "xlin"} ELSE {"quad", "xlin"}), eo |-> 0..2,
           tr |-> {<<"same", 0>>, <<"shift", 1>>} \cup (IF L > 3 THEN {<<"swap", 0>>} ELSE {}),
           l |-> Lims, u |-> Lims, P |-> {Fields}, ord |-> {"asc"}, tol |-> {"default"}, cut |-> {Cut},
-          fa |-> {"none", "qbelow_lower", "qabove_lower"} \cup (IF L > 3 THEN {"qbelow_upper"} ELSE {}),
-          fs |-> {"none"} \cup InexactFaults, fk |-> {0}, xs |-> {"frac"}]
+          fa |-> {"none", "qbelow_lower", "qabove_lower", "creal_lower"} \cup (IF L > 3 THEN {"qbelow_upper", "creal_upper"} ELSE {}),
+          fs |-> {"none"} \cup InexactFaults \cup ComplexRealFaults, fk |-> {0}, xs |-> {"frac"}]
     [] Part = "algebra" ->
          [sid |-> DOMAIN Catalogue \ {"fact"}, eo |-> 0..2, tr |-> {<<"same", 0>>}, l |-> Lims \cup {PInf, NInf}, u |-> Lims \cup {PInf, NInf},
           P |-> {Fields}, ord |-> {"asc"}, tol |-> {"default"}, cut |-> {Cut}, fa |-> {"none"}, fs |-> {"none"},
@@ -207,11 +210,14 @@ Sensible(x) ==
   /\ x.xs = "int" => x.fs = "xdep_upper"
   /\ Part = "err" /\ x.eo = 1 => x.fs = "pole" \/ x.fa = "pole" \/ (x.fs = "none" /\ x.fa = "none")
   /\ Part = "rnd" => (x.fa = "none") # (x.fs = "none")
+  \* the debug switch is varied on the complex-typed limits only (there the kind of failure is what is at stake)
+  /\ x.dbg => x.fs \in ComplexRealFaults \/ x.fa \in ComplexRealFaults
+  /\ x.fs \in ComplexRealFaults \/ x.fa \in ComplexRealFaults => x.eo = 0
   /\ x.fs \in {"var_pi", "var_i", "var_sin", "var_x"} \/ x.fa \in {"var_i", "var_x", "var_c"} => x.tr[1] \in {"same", "shift"}
   /\ x.fs = "unknown_var" \/ x.fa = "unknown_var" => x.tr[1] \in {"same", "shift"}
 
 CfgOf(x) == [evenOdd |-> x.eo, cut |-> x.cut, cutFact |-> CutFact, xs |-> XsOf(x.xs), cval |-> CVal, vars |-> {"x"},
-             ivars |-> {"c"}, tol |-> Tols[x.tol], userfuncs |-> {}, forbidden |-> {}, required |-> {}, listing |-> "black"]
+             ivars |-> {"c"}, tol |-> Tols[x.tol], userfuncs |-> {}, forbidden |-> {}, required |-> {}, listing |-> "black", debug |-> x.dbg]
 CleanAuthor(x) == [lower |-> x.l, upper |-> x.u, body |-> Catalogue[x.sid], var |-> "n"]
 AuthorOf(x) == ApplyFault(CleanAuthor(x), x.fa, x.fk, XsOf(x.xs))
 StudentOf(x) == LET a == CleanAuthor(x)
@@ -223,7 +229,8 @@ SeedOK(s) == Part # "value" \/ Stride = 1 \/ (5 * IndexIn(ValueSidSeq, s.sid) + 
 Seeds == {s \in {[kind |-> "seed", sid |-> s, eo |-> e, tr |-> t, fa |-> f] : s \in Space.sid, e \in Space.eo, t \in Space.tr, f \in Space.fa} : SeedOK(s)}
 ASSUME {TrSeq[i] : i \in 1..Len(TrSeq)} = AllTr /\ Len(TrSeq) = Cardinality(AllTr)
 CasesFor(s) == {x \in [kind : {Part}, sid : {s.sid}, eo : {s.eo}, tr : {s.tr}, fa : {s.fa}, l : Space.l, u : Space.u, P : Space.P,
-                       ord : Space.ord, tol : Space.tol, cut : Space.cut, fs : Space.fs, fk : Space.fk, xs : Space.xs] : Sensible(x)}
+                       ord : Space.ord, tol : Space.tol, cut : Space.cut, fs : Space.fs, fk : Space.fk, xs : Space.xs,
+                       dbg : (IF Part = "rnd" THEN BOOLEAN ELSE {FALSE})] : Sensible(x)}
 Init == c \in Seeds /\ io = "seed" /\ out = {}
 Next == /\ c.kind = "seed"
         /\ c' \in CasesFor(c)
